@@ -13,3 +13,35 @@ Definition co_max (l : list val) : val :=
   fold_left (fun m v => match v with None => m | Some x => match m with None => Some x | Some y => if Qltb y x then Some x else m end end) l None.
 Definition co_avg (l : list val) : val :=
   if (co_count l =? 0)%nat then None else Some (co_sum l / inject_Z (Z.of_nat (co_count l))).
+
+(* co_median (after the repair: NaN when nothing is left): drop NaN, sort by repeated extraction of the minimum
+   (scan with <=, list.remove of the first equal element), middle element or mean of the two middle ones *)
+Definition Qleb (x y : Q) : bool := if Qlt_le_dec y x then false else true.
+Definition Qsame (a b : Q) : bool := (Qnum a =? Qnum b)%Z && (Qden a =? Qden b)%positive.   (* same number, same representation *)
+Definition valid_of (l : list val) : list Q := flat_map (fun v => match v with Some x => [x] | None => [] end) l.
+Fixpoint find_min (m : Q) (l : list Q) : Q := match l with [] => m | v :: r => find_min (if Qleb v m then v else m) r end.
+Fixpoint remove_first (x : Q) (l : list Q) : list Q := match l with [] => [] | v :: r => if Qsame v x then r else v :: remove_first x r end.
+Fixpoint sel_sort (fuel : nat) (l : list Q) : list Q :=
+  match fuel, l with
+  | S f, v :: _ => let m := find_min v l in m :: sel_sort f (remove_first m l)
+  | _, _ => []
+  end.
+Definition median_of (s : list Q) : val :=
+  let n := length s in
+  if (n =? 0)%nat then None
+  else if Nat.odd n then Some (nth ((n - 1) / 2) s 0)
+  else Some ((1 # 2) * (nth (n / 2) s 0 + nth (n / 2 - 1) s 0)).
+Definition co_median (l : list val) : val := let v := valid_of l in median_of (sel_sort (length v) v).
+
+(* Raster.computeAggregates: NaN becomes the no-data value *)
+Inductive aggop := OpCount | OpSum | OpMin | OpMax | OpAvg | OpMedian.
+Definition NO_DATA : Q := - (99999 # 1).
+Definition aggregate (op : aggop) (l : list val) : Q :=
+  match op with
+  | OpCount => inject_Z (Z.of_nat (co_count l))
+  | OpSum => co_sum l
+  | OpMin => match l with [] => NO_DATA | _ => match co_min l with Some m => m | None => NO_DATA end end
+  | OpMax => match l with [] => NO_DATA | _ => match co_max l with Some m => m | None => NO_DATA end end
+  | OpAvg => match co_avg l with Some m => m | None => NO_DATA end
+  | OpMedian => match co_median l with Some m => m | None => NO_DATA end
+  end.
